@@ -182,5 +182,5 @@ def s_random(draw, max_len=7, max_steps=25):
 def parts(tier):
     cfg = Part('configurations', check, enumerate=enum_configs, exhaustive=True, chunk=60)
     if tier == 'quick':
-        return [cfg, Part('chains', check, strategy=s_random(), examples=60, shards=4)]
+        return [cfg, Part('chains', check, strategy=s_random(), examples=150, shards=4)]
     return [cfg, Part('chains', check, strategy=s_random(10, 80), examples=1500, shards=16)]
